@@ -17,6 +17,8 @@ from vcheck.core import Task, Violation
 ID = 'C06'
 LEVEL = 'fault_enumeration'
 BUDGET = {'quick': 60, 'thorough': 600}
+# deterministic sub-checks repeated in a `python -O` child (core.optimized_child)
+OPT_SUBS = ('single#9',)
 RULE = ('sources: valid images, crafted contents that make real parsers '
         'raise (VMDK bad version / descriptor location, VHDX bad region '
         'signature), zeros, random, as BytesIO with read-size sequences and '
